@@ -1,7 +1,7 @@
 (* CodecCanon.v — steps 2b..4 of C01: Option / Vec / nested-struct fields, and the round trip of a whole
    struct in declaration order, for every layout of the well-formed class (DESIGN 5.2). *)
 From Zvt Require Import Base Length LengthProps Cp437 Encoding EncodingProps Codec CodecTotal CodecFrame CodecRoundtrip CodecTags CodecFields.
-From Coq Require Import ZifyBool ZifyNat ZifyN.
+From Coq Require Import ZifyBool ZifyNat ZifyN Permutation.
 Ltac Zify.zify_post_hook ::= Z.div_mod_to_equations.
 Open Scope N_scope.
 
@@ -327,6 +327,75 @@ Proof.
   - cbn [groups_from]. destruct Hin as [E|Hin]; [discriminate|]. apply IH; assumption.
 Qed.
 
+Lemma groups_from_idx k ts : forall g, In g (groups_from k ts) -> (k <= g_idx g)%nat.
+Proof.
+  revert k. induction ts as [|[[f v] [b|]] ts IH]; intros k g Hin; [destruct Hin| |].
+  - cbn [groups_from] in Hin. destruct Hin as [<-|Hin]; [cbn; lia|]. specialize (IH (S k) g Hin). lia.
+  - cbn [groups_from] in Hin. specialize (IH (S k) g Hin). lia.
+Qed.
+Lemma groups_from_idx_nodup ts : forall k, NoDup (map g_idx (groups_from k ts)).
+Proof.
+  induction ts as [|[[f v] [b|]] ts IH]; intros k; [constructor| |].
+  - cbn [groups_from map g_idx]. constructor; [|apply IH]. intros Hin. apply in_map_iff in Hin. destruct Hin as [g [E Hg]].
+    pose proof (groups_from_idx (S k) ts g Hg). lia.
+  - cbn [groups_from]. apply IH.
+Qed.
+
+(* what the slot view of a struct gives about its groups (shared by the in-order and the permuted theorem) *)
+Lemma slots_facts D (ps : list (field * value * bytes)) (ts : list tslot) :
+  let pfs := map (fun x => fst (fst x)) ps in
+  let tfs := map (fun s : tslot => fst (fst s)) ts in
+  let gs := groups_from (length pfs) ts in
+  forallb untagged_field pfs = true -> forallb (fun f => negb (untagged_field f)) tfs = true ->
+  NoDup (tags_of tfs) ->
+  (forall k f v g, nth_error ts k = Some (f, v, Some g) ->
+     exists nm t ls e ty, f = Fld nm (Some t) ls e ty /\
+       (forall r, exists rest, tag_dec false (g ++ r) = Ok (t, rest)) /\
+       (forall r, next_ok t r -> D ls e ty (Some t) (g ++ r) = Ok (v, r))) ->
+  (forall f v, In (f, v, None) ts -> v = default_value (f_ty f) /\ is_optional (f_ty f) = true) ->
+  untagged (pfs ++ tfs) = pfs /\ Forall (group_ok D (pfs ++ tfs)) gs /\ NoDup (map g_tag gs) /\ NoDup (map g_idx gs) /\
+  all_required_present (pfs ++ tfs) gs /\ gbytes gs = tbytes ts /\
+  apply_groups (init_slots (pfs ++ tfs) (map (fun x => snd (fst x)) ps)) gs
+    = map (fun x => snd (fst x)) ps ++ map (fun s : tslot => snd (fst s)) ts.
+Proof.
+  intros pfs tfs gs Hp Ht Hnd Hpres Habs.
+  set (pre := map (fun x : field * value * bytes => snd (fst x)) ps).
+  assert (Hlen : length pre = length pfs) by (unfold pre, pfs; rewrite !map_length; reflexivity).
+  split; [apply untagged_app; assumption|]. split; [|split; [apply groups_from_nodup; assumption|split; [apply groups_from_idx_nodup|split; [|split; [apply gbytes_groups_from|]]]]].
+  - (* group_ok for every generated group *)
+    unfold gs.
+    assert (G : forall ts' k0, (forall k f v g, nth_error ts' k = Some (f, v, Some g) -> nth_error ts (k0 + k) = Some (f, v, Some g)) ->
+              Forall (group_ok D (pfs ++ tfs)) (groups_from (length pfs + k0) ts')).
+    { induction ts' as [|[[f v] [g|]] ts' IH]; intros k0 Hsub; [constructor| |].
+      - cbn [groups_from]. constructor.
+        + pose proof (Hsub 0%nat f v g eq_refl) as Hn. rewrite Nat.add_0_r in Hn.
+          destruct (Hpres k0 f v g Hn) as [nm [t [ls [e [ty [-> [Htag Hdec]]]]]]].
+          exists nm, ls, e, ty. cbn [g_tag g_idx g_val g_bytes f_tag]. split; [|split; assumption].
+          rewrite (find_tagged_skip pfs Hp).
+          rewrite (find_tagged_unique tfs Hnd k0 (Fld nm (Some t) ls e ty) t (0 + length pfs)%nat).
+          * replace (0 + length pfs + k0)%nat with (length pfs + k0)%nat by lia. reflexivity.
+          * unfold tfs. rewrite nth_error_map, Hn. reflexivity.
+          * reflexivity.
+        + replace (S (length pfs + k0)) with (length pfs + S k0)%nat by lia. apply IH.
+          intros k f' v' g' H. replace (S k0 + k)%nat with (k0 + S k)%nat by lia. apply (Hsub (S k)). exact H.
+      - cbn [groups_from]. replace (S (length pfs + k0)) with (length pfs + S k0)%nat by lia. apply IH.
+        intros k f' v' g' H. replace (S k0 + k)%nat with (k0 + S k)%nat by lia. apply (Hsub (S k)). exact H. }
+    specialize (G ts 0%nat (fun k f v g H => H)). rewrite Nat.add_0_r in G. exact G.
+  - (* all required tags are among the present ones *)
+    intros t Hin. unfold required_tags in Hin. apply in_flat_map in Hin. destruct Hin as [f [Hf Hin]].
+    apply in_app_or in Hf. destruct Hf as [Hf|Hf].
+    + rewrite forallb_forall in Hp. specialize (Hp f Hf). unfold untagged_field in Hp. destruct (f_tag f); [discriminate|destruct Hin].
+    + unfold tfs in Hf. apply in_map_iff in Hf. destruct Hf as [[[f' v] og] [E Hs]]. cbn [fst] in E. subst f'.
+      destruct (f_tag f) as [t'|] eqn:Et; [|destruct Hin].
+      destruct (is_optional (f_ty f)) eqn:Eo; [destruct Hin|]. destruct Hin as [<-|[]].
+      destruct og as [g|].
+      * eapply groups_from_present; eassumption.
+      * destruct (Habs f v Hs) as [_ Hopt]. congruence.
+  - fold pre. rewrite init_slots_app; try assumption.
+    unfold tfs. rewrite map_map. unfold gs. rewrite <- Hlen.
+    apply apply_groups_slots. intros f v Hin. apply (Habs f v Hin).
+Qed.
+
 (* THE struct lemma in declaration order: positional triples, then tagged slots (present or absent) *)
 Theorem dec_struct_slots D (ps : list (field * value * bytes)) (ts : list tslot) (tail : bytes) :
   let pfs := map (fun x => fst (fst x)) ps in
@@ -346,47 +415,32 @@ Theorem dec_struct_slots D (ps : list (field * value * bytes)) (ts : list tslot)
     = Ok (VRec (map (fun x => snd (fst x)) ps ++ map (fun s : tslot => snd (fst s)) ts), tail).
 Proof.
   intros pfs tfs Hp Ht Hnd Htail Hpos Hpres Habs.
-  set (pre := map (fun x : field * value * bytes => snd (fst x)) ps).
-  assert (Hlen : length pre = length pfs) by (unfold pre, pfs; rewrite !map_length; reflexivity).
-  pose proof (gbytes_groups_from (length pre) ts) as Hgb.
-  pose proof (dec_struct_groups D (pfs ++ tfs) ps (groups_from (length pre) ts) tail) as T.
-  rewrite Hgb in T.
-  rewrite T.
-  - f_equal. f_equal. f_equal. fold pre.
-    rewrite init_slots_app; try assumption.
-    unfold tfs. rewrite map_map.
-    apply apply_groups_slots. intros f v Hin. apply (Habs f v Hin).
-  - rewrite untagged_app by assumption. reflexivity.
-  - exact Hpos.
-  - (* group_ok for every generated group *)
-    rewrite Hlen. clear T Hgb.
-    assert (G : forall ts' k0, (forall k f v g, nth_error ts' k = Some (f, v, Some g) -> nth_error ts (k0 + k) = Some (f, v, Some g)) ->
-              Forall (group_ok D (pfs ++ tfs)) (groups_from (length pfs + k0) ts')).
-    { induction ts' as [|[[f v] [g|]] ts' IH]; intros k0 Hsub; [constructor| |].
-      - cbn [groups_from]. constructor.
-        + pose proof (Hsub 0%nat f v g eq_refl) as Hn. rewrite Nat.add_0_r in Hn.
-          destruct (Hpres k0 f v g Hn) as [nm [t [ls [e [ty [-> [Htag Hdec]]]]]]].
-          exists nm, ls, e, ty. cbn [g_tag g_idx g_val g_bytes f_tag]. split; [|split; assumption].
-          rewrite (find_tagged_skip pfs Hp).
-          rewrite (find_tagged_unique tfs Hnd k0 (Fld nm (Some t) ls e ty) t (0 + length pfs)%nat).
-          * replace (0 + length pfs + k0)%nat with (length pfs + k0)%nat by lia. reflexivity.
-          * unfold tfs. rewrite nth_error_map, Hn. reflexivity.
-          * reflexivity.
-        + replace (S (length pfs + k0)) with (length pfs + S k0)%nat by lia. apply IH.
-          intros k f' v' g' H. replace (S k0 + k)%nat with (k0 + S k)%nat by lia. apply (Hsub (S k)). exact H.
-      - cbn [groups_from]. replace (S (length pfs + k0)) with (length pfs + S k0)%nat by lia. apply IH.
-        intros k f' v' g' H. replace (S k0 + k)%nat with (k0 + S k)%nat by lia. apply (Hsub (S k)). exact H. }
-    specialize (G ts 0%nat (fun k f v g H => H)). rewrite Nat.add_0_r in G. exact G.
-  - apply groups_from_nodup; assumption.
-  - exact Htail.
-  - (* all required tags are among the present ones *)
-    intros t Hin. unfold required_tags in Hin. apply in_flat_map in Hin. destruct Hin as [f [Hf Hin]].
-    apply in_app_or in Hf. destruct Hf as [Hf|Hf].
-    + rewrite forallb_forall in Hp. specialize (Hp f Hf). unfold untagged_field in Hp. destruct (f_tag f); [discriminate|destruct Hin].
-    + unfold tfs in Hf. apply in_map_iff in Hf. destruct Hf as [[[f' v] og] [E Hs]]. cbn [fst] in E. subst f'.
-      destruct (f_tag f) as [t'|] eqn:Et; [|destruct Hin].
-      destruct (is_optional (f_ty f)) eqn:Eo; [destruct Hin|]. destruct Hin as [<-|[]].
-      destruct og as [g|].
-      * eapply groups_from_present; eassumption.
-      * destruct (Habs f v Hs) as [_ Hopt]. congruence.
+  destruct (slots_facts D ps ts Hp Ht Hnd Hpres Habs) as [Hu [Hok [Hnt [Hni [Hreq [Hgb Happ]]]]]].
+  fold pfs tfs in Hu, Hok, Hreq, Happ, Hgb, Hnt, Hni.
+  pose proof (dec_struct_groups D (pfs ++ tfs) ps (groups_from (length pfs) ts) tail) as T.
+  rewrite Hgb, Happ in T. apply T; try assumption.
+Qed.
+
+(* ... and with the tagged groups in ANY order *)
+Theorem dec_struct_slots_perm D (ps : list (field * value * bytes)) (ts : list tslot) (tail : bytes) gs' :
+  let pfs := map (fun x => fst (fst x)) ps in
+  let tfs := map (fun s : tslot => fst (fst s)) ts in
+  forallb untagged_field pfs = true -> forallb (fun f => negb (untagged_field f)) tfs = true ->
+  NoDup (tags_of tfs) ->
+  tail_ok (pfs ++ tfs) tail ->
+  Permutation (groups_from (length pfs) ts) gs' ->
+  pos_ok D ps (gbytes gs' ++ tail) ->
+  (forall k f v g, nth_error ts k = Some (f, v, Some g) ->
+     exists nm t ls e ty, f = Fld nm (Some t) ls e ty /\
+       (forall r, exists rest, tag_dec false (g ++ r) = Ok (t, rest)) /\
+       (forall r, next_ok t r -> D ls e ty (Some t) (g ++ r) = Ok (v, r))) ->
+  (forall f v, In (f, v, None) ts -> v = default_value (f_ty f) /\ is_optional (f_ty f) = true) ->
+  dec_struct_with D (pfs ++ tfs) (concat (map snd ps) ++ gbytes gs' ++ tail)
+    = Ok (VRec (map (fun x => snd (fst x)) ps ++ map (fun s : tslot => snd (fst s)) ts), tail).
+Proof.
+  intros pfs tfs Hp Ht Hnd Htail HP Hpos Hpres Habs.
+  destruct (slots_facts D ps ts Hp Ht Hnd Hpres Habs) as [Hu [Hok [Hnt [Hni [Hreq [Hgb Happ]]]]]].
+  fold pfs tfs in Hu, Hok, Hreq, Happ, Hgb, Hnt, Hni.
+  pose proof (perm_invariant D (pfs ++ tfs) ps (groups_from (length pfs) ts) gs' tail HP) as T.
+  rewrite Happ in T. apply T; try assumption.
 Qed.
